@@ -24,7 +24,42 @@ fn mk(r: &mut StdRng) -> Vec<u8> {
     m[7] = n;
     for _ in 0..n {
         if r.gen_bool(0.6) && m[5] > 0 { m.extend_from_slice(&[0xc0, 12]); } else { m.extend_from_slice(b"\x01x\x00"); }
-        match r.gen_range(0..6) {
+        // a name for use inside RDATA: compressed against the QNAME when there is one
+        let rd_name = |r: &mut StdRng, qd: u8| -> Vec<u8> {
+            if qd > 0 && r.gen_bool(0.7) { let mut v = vec![1, b'a' + r.gen_range(0..3u8)]; v.extend_from_slice(&[0xc0, if r.gen_bool(0.5) { 12 } else { 16 }]); v }
+            else { vec![2, b'n', b's', 1, b'q', 0] }
+        };
+        let push_rr = |m: &mut Vec<u8>, ty: u16, class: u16, rd: &[u8]| {
+            m.extend_from_slice(&ty.to_be_bytes());
+            m.extend_from_slice(&class.to_be_bytes());
+            m.extend_from_slice(&[0, 0, 0, 60]);
+            m.extend_from_slice(&(rd.len() as u16).to_be_bytes());
+            m.extend_from_slice(rd);
+        };
+        let qd = m[5];
+        match r.gen_range(0..10) {
+            6 => {
+                // every single-name type of RFC 1035 with a (usually compressed) name
+                let ty = *[2u16, 3, 4, 5, 7, 8, 9, 12].choose(r).unwrap();
+                let rd = rd_name(r, qd);
+                push_rr(&mut m, ty, 1, &rd);
+            }
+            7 => {
+                let mut rd = rd_name(r, qd);
+                rd.extend(rd_name(r, qd));
+                for v in [1u32, 2, 3, 4, 5] { rd.extend_from_slice(&v.to_be_bytes()); }
+                push_rr(&mut m, 6, 1, &rd);
+            }
+            8 => {
+                let mut rd = rd_name(r, qd);
+                rd.extend(rd_name(r, qd));
+                push_rr(&mut m, 14, 1, &rd);
+            }
+            9 => {
+                let mut rd = vec![0, 7];
+                rd.extend(rd_name(r, qd));
+                push_rr(&mut m, 15, *[1u16, 3].choose(r).unwrap(), &rd);
+            }
             0 => m.extend_from_slice(&[0, 1, 0, 1, 0, 0, 0, 60, 0, 4, 1, 2, 3, 4]),
             1 => {
                 m.extend_from_slice(&[0, 2, 0, 1, 0, 0, 0, 60]);
